@@ -2,6 +2,7 @@ import Circomspect.Model.Field
 import Circomspect.Spec.Field
 import Circomspect.Model.Strip
 import Circomspect.Spec.Strip
+import Circomspect.Model.Curve
 
 namespace Driver
 open Circomspect
@@ -73,10 +74,39 @@ def stripCmd (spec : Bool) (args : List String) : String :=
     | none => "bad-op"
   | _ => "bad-op"
 
+def curveOf : String → Option Curve.Curve
+  | "BN254" => some .bn254
+  | "BLS12_381" => some .bls12381
+  | "GOLDILOCKS" => some .goldilocks
+  | _ => none
+
+def showCurve : Option Curve.Curve → String
+  | some .bn254 => "ok BN254"
+  | some .bls12381 => "ok BLS12_381"
+  | some .goldilocks => "ok Goldilocks"
+  | none => "err"
+
+def c11Cmd (args : List String) : String :=
+  match args with
+  | ["flag", c, name] => match curveOf c with
+    | some c => toString (Curve.flagged c name)
+    | none => "bad-op"
+  | ["n2b", c, v] => match curveOf c with
+    | some c => toString (Curve.nonstrictFlagged c (if v == "-" then none else v.toNat?))
+    | none => "bad-op"
+  | ["lt", c, k] => match curveOf c, k.toNat? with
+    | some c, some k => toString (Curve.rangeChecked c k)
+    | _, _ => "bad-op"
+  | ["curve", h] => match decodeHexStr h with
+    | some s => showCurve (Curve.parseCurve s)
+    | none => "bad-op"
+  | _ => "bad-op"
+
 def handle (line : String) : String :=
   match line.splitOn " " with
   | "field" :: args => fieldCmd args
   | "fieldspec" :: args => fieldSpecCmd args
+  | "c11" :: args => c11Cmd args
   | "strip" :: args => stripCmd false args
   | "stripspec" :: args => stripCmd true args
   | _ => "bad-op"
